@@ -47,6 +47,11 @@ def extract(ctx):
 def decode(p):
     f = p.split(" ")
     try:
+        if f[0] == "out":
+            return {"after_the_scan": f[1], "binary_size": int(f[2]), "filler": f[3], "entry_number": int(f[4])}
+        if f[0] == "rt":
+            return {"random_project_tree_seed": int(f[1]), "binary_size": int(f[2]), "entry_returns": int(f[4]),
+                    "packed_through": "CLIPacker.ParseArgs (in-process)" if f[5] == "args" else "the real CLI as child process: ecal pack -target T entry (cwd = project)"}
         if f[0] == "seq":
             first = {"-": "target does not exist"}.get(f[1]) or (
                 "target exists as an unrelated file of %s bytes" % f[1][2:] if f[1].startswith("F:") else
@@ -55,9 +60,12 @@ def decode(p):
                     "entry_returns": int(f[6]), "also_started_as_process": f[7] == "1"}
         if f[0] == "proc":
             return {"real_executable": "CLI of the tree under test, packed with project tree %s" % f[1], "entry_returns": int(f[2]),
-                    "command_line": [] if f[3] == "-" else [bytes.fromhex(x).decode("latin1") for x in f[3].split(",")]}
+                    "command_line": [] if f[3] == "-" else [bytes.fromhex(x).decode("latin1") for x in f[3].split(",")],
+                    "started_as": {"abs": "absolute path", "bare": "bare argv[0] as after a $PATH lookup, cwd elsewhere",
+                                   "decoy": "bare argv[0], cwd contains an unrelated file of the same name", "rel": "./app.bin",
+                                   "dotdot": "cwd/../app.bin", "symlink": "symbolic link in another directory"}.get(f[4] if len(f) > 4 else "abs")}
         filler = {"0": "letters (no '#')", "1": "'#' every 61 bytes, newline every 127", "2": "pseudo-random (LCG seed %s)" % f[3]}[f[2]]
-        d = {"packed": f[0] == "1", "binary_size": int(f[1]), "filler": filler, "project_tree": int(f[6]), "entry_returns": int(f[7])}
+        d = {"packed": f[0] == "1", "binary_size": int(f[1]), "filler": filler, "project_tree": f[6] + (" (must be refused by the pack tool)" if f[6].endswith("r") else ""), "entry_returns": int(f[7])}
         if f[4] != "-":
             d["planted"] = [{"offset": int(x.split(":")[0]), "bytes": bytes.fromhex(x.split(":")[1]).decode("latin1")}
                             for x in f[4].split(",")]
@@ -87,10 +95,32 @@ SPEC = dict(
     trusted_base=[
         "archive/zip writer and reader of the Go standard library are inverse to each other (exercised by the file comparison, not modelled)",
         "the ECAL interpreter evaluates the entry program (C03-C06 cover it); the model stops at the bytes handed to the zip reader",
+        "strings.Index / bytes.Index = first occurrence (model: findFirst); unicode.IsSpace/IsControl as tabulated by the extractor",
+        "seek, zip reader, parser and interpreter enter the outcome model as the named facts of `After` (seekOk, zipOk, entryOk, result); "
+        "they are exercised (out/rt/tree cases) but not modelled",
+        "os.Executable() names the file that was started (model: scannedIsStarted; exercised by the start-form process cases)",
         "os.File.Read returns 1..len(p) bytes before the end of a regular file and 0, io.EOF at the end (the theorems hold for every such read schedule)",
         "go/ast extractor in go/cmd/harness/c20.go that regenerates lean/Ecal/Gen/C20.lean (buffer sizes, keep expression, marker pieces, skip table, first statement of main)",
     ],
+    post=lambda ctx, cases, gores, model: ctx.coverage.update(
+        witnesses_not_counted_as_obligations=len([l for l in open(os.path.join(checklib.LEAN, "Ecal", "Props", "C20.lean"))
+                                                  if l.startswith("example")]),
+        obligations_note=("obligations = theorems of Props/C20.lean: 9 facts regenerated from the source and checked by decide "
+                          "(geom_*, isSkip_table, main_runs_packed_first, locate_started_file, pack_truncates - syntactic facts tied to "
+                          "the code by the process / sequence cases) + 8 property statements over the model; negative witnesses, "
+                          "definitional facts (pack_overwrites) and non-vacuity instances are `example`s and not counted")),
     assumptions=[
+        "requires the repairs fixes/C20-locate-own-executable.patch (E1), C20-entry-name-collision.patch (E2), "
+        "C20-packfiles-propagates-errors.patch (E3) in the tree under test; without them the check reports VIOLATION (findings/C20-E*.json)",
+        "a project with a root file named .ecalsrc-entry, or containing a symbolic link to a directory / a dangling link, is REFUSED by the pack "
+        "tool with an error (spec decision: no executable is better than one that runs an impostor or silently lacks files); the property is "
+        "about the projects the tool accepts",
+        "the hypothesis 'no marker occurrence starts inside the interpreter binary' is checked on the one CLI binary built in the run "
+        "(srcmarker=0; this GOOS/GOARCH), not proved for every build",
+        "Windows: the '.exe' suffix branch of RunPackedBinary is not exercised (Linux only)",
+        "an I/O error other than EOF during the scan ends the loop silently = fall through to the normal command line (not modelled, not injected)",
+        "the scan is independent of the project tree (consequence of archive_exact: the archive is opaque bytes after the marker); the size sweep "
+        "therefore uses one small tree, other trees run on boundary sizes only",
         "no occurrence of the marker starts inside the source binary (binary followed by the marker): a binary that contains the complete "
         "marker, or ends with the marker minus its last byte, is ambiguous by design - first occurrence wins (scan_first_occurrence, witnesses)",
     ],
@@ -101,7 +131,9 @@ META = dict(
     technique=("Lean 4 theorems over a byte-list model of Pack's layout and RunPackedBinary's block loop (geometry regenerated from "
                "pack.go by a go/ast extractor) + differential correspondence driving the real Pack and RunPackedBinary over an "
                "exhaustive size sweep"),
-    level_text=("Proof: for every binary length and content (no marker occurrence starting inside the binary), every archive starting "
+    level_text=("Proof for the marker scan and the outcome after it (under named hypotheses for zip reader / parser); the clauses 'which file is "
+                "scanned', 'files recovered' and 'entry runs' are a small model + tests (start forms of the real process, 10 fixed and random "
+                "project trees through the tool's own command line). Proof: for every binary length and content (no marker occurrence starting inside the binary), every archive starting "
                 "with a non-space byte and every read schedule, the overlapping-window scan returns |bin|+|marker| and the zip reader "
                 "gets exactly the archive bytes; on every file the scan equals strings.Index over the whole file, terminates, stays in "
                 "bounds and falls through when there is no marker; first occurrence wins otherwise. Negative witness for the scanner "
